@@ -65,6 +65,35 @@ def main():
     esc_s = meta.get('escalate_s', {}).get(tier, 30 if tier == 'quick' else 240)
     n_esc = runner.escalate(results, esc_s, args.jobs, log)
     log(f"  escalated {n_esc} obligations to the portfolio ({esc_s}s budget)")
+    # further rounds: branch sides that were only skipped on sample evidence and could not be refuted are explored
+    for rnd in range(2, 5):
+        roots = {}
+        for n, r in results.items():
+            for rec in r['records']:
+                if rec.get('kind') == 'side' and rec['status'] in ('sat', 'unknown') and not rec.get('explored'):
+                    rec['explored'] = True
+                    roots.setdefault(n, []).append([tuple(x) for x in rec['prefix']])
+        if not roots:
+            break
+        log(f"  round {rnd}: exploring {sum(len(v) for v in roots.values())} unrefuted branch sides in {len(roots)} harnesses")
+        more = runner.run_workers(pid, list(roots), tier, args.jobs, wall_limit, quick_ms, log, roots=roots)
+        runner.escalate(more, esc_s, args.jobs, log)
+        for n, r2 in more.items():
+            r = results[n]
+            if r2.get('error'):
+                r.setdefault('round_errors', []).append(r2['error'])
+                r['unsupported'].append(dict(path=-1, reason='later exploration round failed: ' + r2['error'][:200]))
+                continue
+            off = r['paths']
+            for rec in r2['records']:
+                rec['path'] = rec['path'] + off
+                r['records'].append(rec)
+            r['paths'] += r2['paths']
+            r['path_outcomes'] += r2['path_outcomes']
+            r['truncated'] = r['truncated'] or r2['truncated']
+            r['unsupported'] += r2['unsupported']
+            r['fidelity'] += r2.get('fidelity', [])
+            r['wall'] = round(r.get('wall', 0) + r2.get('wall', 0), 2)
 
     # ---- triage
     known = [k for k in load_known() if k.get('property') == pid]
@@ -86,7 +115,7 @@ def main():
             else:
                 harness_errors.append(dict(harness=n, error=r['error'][:2000]))
             continue
-        if r['reach'] is None and r['paths'] > 0:
+        if r['paths'] > 0 and (r['reach'] or {}).get('status') == 'unsat':
             vacuous.append(n)
         for u in r['unsupported']:
             undecided.append(dict(harness=n, name=f"path {u['path']}", reason='engine: ' + u['reason']))
@@ -104,6 +133,13 @@ def main():
                 if len(samples) < 6 and rec['by'] != 'simplifier':
                     samples.append(dict(harness=n, path=rec['path'], obligation=rec['name'], verdict='unsat', by=rec['by'],
                                         secs=rec['secs']))
+            elif rec.get('kind') == 'side':
+                # a branch side that could not be refuted: fine if it has been explored in a later round
+                if not rec.get('explored'):
+                    undecided.append(dict(harness=n, name='unexplored branch side', reason='not refuted and not explored (round limit)',
+                                          path=rec['path']))
+                else:
+                    n_unsat += 1      # accounted for by the paths explored from it
             elif rec['status'] == 'sat':
                 n_sat += 1
                 key = json.dumps(rec.get('env', {}), sort_keys=True)
